@@ -10,7 +10,8 @@ from pv.canon import B, Exc, T, Val, outcome, unB
 ID = "C13"
 COQ_REQUIRE = "C13.Run"
 SHARD = 40
-RULE = ("5 live cases first (real smaps / smaps_rollup / statm of a helper with chosen mappings: printers vs real bytes, model = psutil on the snapshot, psutil over the real /proc); "
+RULE = ("listings of 46 KB - 4.3 MiB generated inside Gallina (n copies of three templates, per-index figures, 32 KiB / 1 MiB offsets aligned on each summed line kind: before it, before its predecessor, inside, at its end) judged for every source of memory_full_info, inside oneshot() and against the rows of memory_maps; "
+        "5 live cases first (real smaps / smaps_rollup / statm of a helper with chosen mappings: printers vs real bytes, model = psutil on the snapshot, psutil over the real /proc); "
         "statm records of seven page counts (0 .. 2^52) x page size {real, 4096, 16384, 65536}; smaps listings of 0..25 mappings "
         "drawn from a grammar (hex ranges, perms, 35 path shapes incl. blanks inside and at the end/colons/' (deleted)'/UTF-8/Unicode blanks/figure-like names, repeated "
         "paths, anonymous, deleted files whose marked name exists / is absent for an assortment of errnos (ENAMETOOLONG from real 246..255-byte names "
@@ -339,6 +340,100 @@ def _mutate(rng, ms):
     return data
 
 
+# ------------------------------------------------------------------ big listings (mirror of Run.big_ms; checked by length + checksum)
+_BIG_FIGS = {"Size": (7, 2000), "Rss": (5, 1000), "Pss": (3, 977), "Shared_Clean": (13, 300), "Shared_Dirty": (17, 10),
+             "Private_Clean": (19, 400), "Private_Dirty": (23, 333), "Referenced": (5, 1000), "Anonymous": (23, 333), "Swap": (31, 41)}
+
+
+def _big_lines(i, seed):
+    g = lambda a, m: ((i * a + seed) % m) * 4
+    f = lambda name, v: (name, v, True)
+    return [f("Size", g(7, 2000) + 4), f("KernelPageSize", 4), f("MMUPageSize", 4), f("Rss", g(5, 1000)), f("Pss", g(3, 977)),
+            f("Pss_Dirty", g(11, 50)), f("Shared_Clean", g(13, 300)), f("Shared_Dirty", g(17, 10)), f("Private_Clean", g(19, 400)),
+            f("Private_Dirty", g(23, 333)), f("Referenced", g(5, 1000)), f("Anonymous", g(23, 333)), f("KSM", 0), f("LazyFree", g(29, 7)),
+            f("AnonHugePages", 0), f("ShmemPmdMapped", 0), f("FilePmdMapped", 0), f("Shared_Hugetlb", 0),
+            f("Private_Hugetlb", 2048 if i % 97 == 0 else 0), f("Swap", g(31, 41)), f("SwapPss", g(37, 13)), f("Locked", 0),
+            ("THPeligible", i % 2, False)]
+
+
+def _big_block(i, seed, shift):
+    """-> list of (line kind, bytes with the newline)"""
+    start = 139637976727552 + i * 1048576
+    k = i % 3
+    toks = [b"%012x-%012x" % (start, start + 4096), [b"r-xp", b"rw-p", b"r--s"][k], b"%08x" % (i % 16 * 4096),
+            b"00:00" if k == 1 else b"fe:00", b"0" if k == 1 else b"%d" % (1000 + i)]
+    path = b"/usr/lib/libbig.so.%d" % (i % 7) if k == 0 else b"" if k == 1 else b"/srv/data file:%d" % (i % 5)
+    pad = shift if i == 0 else 2
+    hdr = b" ".join(toks) + ((b" " + b" " * pad + path) if path else b" ")
+    out = [("hdr", hdr + b"\n")]
+    for name, v, kb in _big_lines(i, seed):
+        sv = b"%d" % v
+        kp = max(0, max(0, 16 - (len(name) + 1)) + max(0, 8 - len(sv)) - 1)
+        out.append((name, name.encode() + b":" + b" " * (kp + 1) + sv + (b" kB" if kb else b"") + b"\n"))
+    out.append(("VmFlags", b"VmFlags: rd mr mw me \n"))
+    return out
+
+
+def _big_bytes(n, seed, shift):
+    return b"".join(ln for i in range(n) for _, ln in _big_block(i, seed, shift))
+
+
+def _big_shift(n, seed, boundary, kind, where):
+    """header padding of the first mapping such that [boundary] falls just before / inside / at the end of a [kind] line"""
+    base = 2
+    off = 0
+    last = None
+    for i in range(n):
+        for name, ln in _big_block(i, seed, base):
+            if name == kind:
+                target = off if where == "before" else off + 7 if where == "inside" else off + len(ln) - 1
+                if target > boundary:
+                    # the previous [kind] line lies before the boundary: pad the first header by the difference
+                    return base + (boundary - last)
+                last = target
+            off += len(ln)
+    raise ValueError("listing shorter than the boundary")
+
+
+def _adler(b):
+    s1 = 1 + sum(b)
+    # sum of the running sums: sum_{i} (1 + sum_{j<=i} b_j) = n + sum_j b_j * (n - j)
+    n = len(b)
+    import itertools
+    s2 = n + sum(c * (n - j) for j, c in enumerate(b))
+    return s1, s2
+
+
+_SUMMED = ["Pss", "Private_Clean", "Private_Dirty", "Private_Hugetlb", "Swap"]
+_PREV = {"Pss": "Rss", "Private_Clean": "Shared_Dirty", "Private_Dirty": "Private_Clean", "Private_Hugetlb": "Shared_Hugetlb", "Swap": "Private_Hugetlb"}
+
+
+def _big_cases(tier):
+    """(n mappings, seed, boundary, line kind, where, run the model too).  1 MiB is a piece boundary for every power-of-two piece
+    size from 32 KiB up; 'before K' makes K the first line of a piece cut exactly there, 'before prev(K)' makes K the first line
+    of a piece cut there and extended to the end of the line, 'inside' / 'end' cut a line in two / before its newline."""
+    M = 1048576
+    N1 = 1460       # just over 1 MiB
+    specs = [(N1, 11, M, "Pss", "before", False), (N1, 12, M, _PREV["Private_Dirty"], "before", False),
+             (N1, 14, M, "Private_Hugetlb", "end", False), (420, 16, 32768, "Swap", "before", True)]
+    if tier == "thorough":
+        specs += [(N1, 13, M, "Swap", "inside", False), (N1, 15, M, _PREV["Pss"], "before", False)]
+    # the same alignments at 32 KiB on small files (cheap)
+    for j, k in enumerate(_SUMMED):
+        specs += [(64, 30 + j, 32768, k, "before", True), (64, 40 + j, 32768, _PREV[k], "before", False), (64, 50 + j, 32768, k, "inside", False)]
+    if tier == "thorough":
+        for j, k in enumerate(_SUMMED):
+            specs += [(1600, 60 + j, M, k, "before", False), (1600, 70 + j, M, _PREV[k], "before", False), (1600, 80 + j, M, k, "end", False)]
+        specs += [(6000, 21, M, "Pss", "inside", False), (6000, 22, 3 * M, _PREV["Private_Hugetlb"], "before", False),
+                  (3000, 23, 2 * M, "Swap", "before", False), (1600, 24, M, "Pss", "before", True)]
+    out = []
+    for n, seed, boundary, kind, where, with_model in specs:
+        shift = _big_shift(n, seed, boundary, kind, where)
+        out.append({"kind": "big", "cls": "big-listing" if n >= 1000 else "big-listing-32k", "pagesize": _page(), "n": n, "seed": seed, "shift": shift,
+                    "statm": ["700", "300", "100", "5", "0", "90", "0"], "with_model": with_model, "align": [boundary, kind, where]})
+    return out
+
+
 def _live_cases():
     """Snapshots of REAL /proc files of the running kernel, parsed into the records Spec's printers take."""
     from props import _c13_live as L
@@ -374,6 +469,7 @@ def gen_cases(rng, tier):
     n = {"quick": 26, "thorough": 600, "search": 100}[tier]
     HEAVY[0] = tier == "thorough"
     cases = [] if tier == "search" else _live_cases()
+    big = [] if tier == "search" else _big_cases(tier)
     # ---- statm
     for _ in range(n):
         cases.append({"kind": "statm", "cls": "statm", "pagesize": _pagesize(rng), "statm": _statm(rng)})
@@ -479,7 +575,13 @@ def gen_cases(rng, tier):
                           "pagesize": _page(), "has_rollup": rng.random() < 0.7, "rmode": rmode, "rollup": b"x\nPss: 5 kB\n".hex(),
                           "smode": smode, "smaps": ok_smaps, "tmode": tmode, "statm": ok_statm, "memtype": nm,
                           "total": 8 * 2 ** 30, "cached": rng.random() < 0.5})
-    return cases
+    # the big listings cost seconds each under vm_compute: one per shard of the Coq evaluation (the corpus cases come first)
+    ncorpus = len([f for f in os.listdir(os.path.join(os.path.dirname(os.path.dirname(os.path.abspath(__file__))), "corpus", ID)) if f.endswith(".json")])
+    heavy = [c for c in big if c["n"] >= 400]
+    for j, c in enumerate(heavy):
+        pos = max(0, (j + 1) * SHARD - ncorpus - 1)
+        cases.insert(min(pos, len(cases)), c)
+    return cases + [c for c in big if c["n"] < 400]
 
 
 _BREAKS = [b"\r", b"\x0b", b"\x0c", b"\x1c", b"\x1d", b"\x1e", b"\x85", b"\xe2\x80\xa8", b"\xe2\x80\xa9"]
@@ -603,6 +705,9 @@ def coq_term(case):
         return "run_maps %s %s" % (_g_probe(case), G.lst([_g_mapping(m) for m in case["ms"]]))
     if k == "maps_raw":
         return "run_maps_raw %s %s %s %s" % (G.z(case["ps"]), _g_probe(case), G.z(RMODE_NUM[case["mode"]]), _hx(case["content"]))
+    if k == "big":
+        return "run_big %s %s %s %s %s %s" % (G.z(case["pagesize"]), G.nat(case["n"]), G.z(case["seed"]), G.nat(case["shift"]),
+                                              _g_statm(case["statm"]), G.bo(case["with_model"]))
     if k == "live":
         return "run_live %s %s %s %s %s" % (G.z(case["pagesize"]), _g_ex(case["ex"]), _g_rollup(case["rollup"]),
                                             G.lst([_g_mapping(m) for m in case["ms"]]), _g_statm(case["statm"]))
@@ -667,6 +772,8 @@ def coq_struct(case, raw):
         return {"model": raw[0], "spec": raw[1]}
     if k == "percent_hist":
         return {"printed": raw[:2], "model": raw[2], "spec": raw[3]}
+    if k == "big":
+        return {"printed": raw[5], "len": raw[0], "cksum": [raw[1], raw[2]], "model": raw[3], "spec": raw[4]}
     if k == "live":
         return {"printed": raw[:3], "model": raw[3], "spec": raw[4], "hyps": raw[5]}
     if k == "live_statm":
@@ -727,6 +834,21 @@ def judge(case, coq, impl):
                 return Verdict("violation", "memory_maps(grouped=True) is not the per-path sum of the mappings")
         if impl != model:
             return Verdict("corr", "impl != model")
+        return Verdict("ok")
+    if k == "big":
+        spec, model = coq["spec"], coq["model"]
+        if spec is None:
+            raise RuntimeError("C13 big: the generated listing is outside the specification's domain")
+        want_full, want_rows, hugetlb = spec
+        names = ["smaps as the source (no smaps_rollup support)", "smaps_rollup ENOENT", "smaps_rollup ESRCH at open", "smaps_rollup ESRCH at read",
+                 "inside oneshot()", "smaps_rollup as the source"]
+        for nm, got in zip(names, impl[:6]):
+            if got != want_full:
+                return Verdict("violation", "big listing (%d mappings): memory_full_info with %s is not the sum over all mappings" % (case["n"], nm))
+        if impl[6] != Val(want_rows):
+            return Verdict("violation", "big listing: the rows of memory_maps(grouped=False) do not add up to the kernel's accounting")
+        if model is not None and impl[0] != model:
+            return Verdict("corr", "impl != model on the big listing")
         return Verdict("ok")
     if k == "live":
         spec, model = coq["spec"], coq["model"]
@@ -902,9 +1024,86 @@ def _check_printed(what, printed, real):
         raise RuntimeError("C13 live: %s: the kernel prints %d lines, the specification's printer %d" % (what, len(rl), len(pl)))
 
 
+def _impl_big(case, coq, env):
+    import builtins
+    import psutil
+    from psutil import _pslinux
+    from pv import fakeproc
+    data = _big_bytes(case["n"], case["seed"], case["shift"])
+    if len(data) != coq["len"] or list(_adler(data)) != coq["cksum"]:
+        raise RuntimeError("C13 big: the harness's bytes differ from Spec.k_smaps (big_ms): %d bytes / %r vs %r / %r"
+                           % (len(data), _adler(data), coq["len"], coq["cksum"]))
+    b, kind, where = case["align"]
+    probe = data[b:b + 24]
+    at = {"before": data[b - 1:b] == b"\n" and probe.startswith(kind.encode() + b":"),
+          "inside": data.rfind(b"\n", 0, b) + 1 + 7 == b and data[b - 7:].startswith(kind.encode()[:7]),
+          "end": data[b:b + 1] == b"\n" and data[data.rfind(b"\n", 0, b) + 1:b].startswith(kind.encode() + b":")}[where]
+    if not at:
+        raise RuntimeError("C13 big: offset %d is not %s a %s line: %r" % (b, where, kind, data[b - 30:b + 30]))
+    root = os.path.join(env["work"], "proc")
+    fp = fakeproc.FakeProc(root)
+    fakeproc.attach(psutil, root)
+    pid = 4343
+    fp.add(pid)
+    p = psutil.Process(pid)
+    fp.write(pid, "smaps", data)
+    fp.write(pid, "statm", unB(coq["printed"]))
+    # a roll-up whose lines are the sums of the listing's lines
+    tot = collections_counter = {}
+    for i in range(case["n"]):
+        for name, v, kb in _big_lines(i, case["seed"]):
+            tot[name] = tot.get(name, 0) + v
+    rollup = b"7f0000000000-7fffffffffff ---p 00000000 00:00 0                          [rollup]\n" + b"".join(
+        b"%s:%s%d kB\n" % (nm.encode(), b" " * max(1, 24 - len(nm) - 1 - len(str(tot[nm]))), tot[nm])
+        for nm in ["Rss", "Pss", "Pss_Dirty", "Shared_Clean", "Shared_Dirty", "Private_Clean", "Private_Dirty", "Referenced", "Anonymous",
+                   "KSM", "LazyFree", "AnonHugePages", "ShmemPmdMapped", "FilePmdMapped", "Shared_Hugetlb", "Private_Hugetlb", "Swap", "SwapPss", "Locked"])
+    rpath = os.path.join(root, str(pid), "smaps_rollup")
+    real_open = builtins.open
+    mode = [None]
+
+    def fake_open(file, *a, **kw):
+        if file == rpath and mode[0] == "esrch_open":
+            raise ProcessLookupError(errno.ESRCH, "No such process", file)
+        if file == rpath and mode[0] == "esrch_read":
+            return _Raiser(ProcessLookupError(errno.ESRCH, "No such process"))
+        return real_open(file, *a, **kw)
+    saved = (_pslinux.PAGESIZE, _pslinux.HAS_PROC_SMAPS_ROLLUP)
+    builtins.open = fake_open
+    conv = _mem_conv(PFULL)
+    out = []
+    try:
+        _pslinux.PAGESIZE = case["pagesize"]
+        _pslinux.HAS_PROC_SMAPS_ROLLUP = False
+        out.append(outcome(p.memory_full_info, conv))                      # no roll-up support
+        _pslinux.HAS_PROC_SMAPS_ROLLUP = True
+        out.append(outcome(p.memory_full_info, conv))                      # ENOENT (file absent)
+        fp.write(pid, "smaps_rollup", rollup)
+        for m in ("esrch_open", "esrch_read"):
+            mode[0] = m
+            out.append(outcome(p.memory_full_info, conv))
+        mode[0] = None
+        os.remove(rpath)
+        with p.oneshot() if hasattr(p, "oneshot") else psutil.Process(pid).oneshot():
+            pass
+        pp = psutil.Process(pid)
+        with pp.oneshot():
+            pp.memory_maps(grouped=False)                                  # fills the oneshot cache of the smaps file
+            out.append(outcome(pp.memory_full_info, conv))
+        fp.write(pid, "smaps_rollup", rollup)
+        out.append(outcome(p.memory_full_info, conv))                      # the roll-up as the source
+        rows = p.memory_maps(grouped=False)
+        out.append(Val([sum(r.private_clean + r.private_dirty for r in rows), sum(r.pss for r in rows), sum(r.swap for r in rows), len(rows)]))
+        return out
+    finally:
+        builtins.open = real_open
+        _pslinux.PAGESIZE, _pslinux.HAS_PROC_SMAPS_ROLLUP = saved
+
+
 def impl_run(case, coq, env):
     if case["kind"] == "live_direct":
         return _impl_live_direct(env)
+    if case["kind"] == "big":
+        return _impl_big(case, coq, env)
     if case["kind"] == "live":
         for what, pr, real in zip(("smaps", "smaps_rollup", "statm"), coq["printed"], case["real"]):
             _check_printed(what, unB(pr), bytes.fromhex(real))
@@ -1062,7 +1261,7 @@ def _impl_run(case, coq, env):
 
 
 MANIFEST = {
-    "text": "Theorems (Coq, 30, no axioms): for every statm record memory_info is the seven page counts times the page size as pmem(rss, vms, shared, text, lib, "
+    "text": "Theorems (Coq, 31, no axioms): for every statm record memory_info is the seven page counts times the page size as pmem(rss, vms, shared, text, lib, "
             "data, dirty); the four namedtuple layouts of the code (dumped into coq/Gen/C13_Tables.v on every run) are the documented ones used by model "
             "and spec; for every kernel-formatted smaps listing (any number of mappings, any line set incl. all non-figure lines with arbitrary values, "
             "any path bytes) uss/pss/swap are the sums of the private/proportional/swapped kB over all mappings x 1024; a roll-up whose lines are the "
